@@ -88,6 +88,21 @@ def gen(ctx):
                 good = ("file: Music/" + "a" * 400)[:off] + ch + "/track.flac"
                 cases.append(g.case_line("recv", rng.choice("ab"), 1, "eof", [good.encode() + b"\nOK\n"]))
                 expect.append(None)
+    # numbers just beyond u64 in every numeric position (a hand-rolled fold may overflow where str::parse reports an error)
+    for nb in (2 ** 64 - 1, 2 ** 64, 2 ** 64 + 1, 2 ** 64 + 3, 2 ** 64 + 4, 2 ** 64 + 9, 10 ** 20 - 1, 2 ** 65, 2 ** 128):
+        t_ = str(nb).encode()
+        ok_ = nb < 2 ** 64
+        add("recv", b"ACK [" + t_ + b"@0] {} x\nOK\n", "eof", None if ok_ else "invalid")
+        add("recv", b"ACK [5@" + t_ + b"] {play} x\nOK\n", "eof", None if ok_ else "invalid")
+        add("recv", b"binary: " + t_ + b"\nOK\n", "eof", None)        # not a length any more: an ordinary field named binary
+    # a value that ends in a cut-off multi-byte sequence right before its line feed: the line is complete, hence malformed — not "incomplete"
+    for tail_ in (b"\xc3", b"\xe6\x97", b"\xf0\x9f\x98", b"\xf0", b"a\xe2\x82", b"\xc3\xa9\xc3"):
+        for line_ in (b"Title: caf" + tail_ + b"\n", b"a: b\nfile: " + tail_ + b"\nc: d\n", b"ACK [5@0] {} " + tail_ + b"\n"):
+            add("recv", line_ + b"OK\nvolume: 1\nOK\n", "eof", "invalid" if line_.startswith((b"Title", b"ACK")) else None)
+            for seg_ in ([line_, b"OK\n"], [line_[:-1], b"\nOK\n"]):
+                for fl in ("b", "a"):
+                    cases.append(g.case_line("recv", fl, len(seg_), "idle", seg_) if False else g.case_line("recv", fl, 2, "eof", seg_))
+                    expect.append(None)
     # several binary parts in one frame, binary parts between fields, in list frames: unusual, never a reason to panic
     for st in (b"size: 3\nbinary: 3\nabc\nbinary: 2\nde\nOK\n", b"binary: 0\n\nbinary: 0\n\nOK\n", b"binary: 1\na\nx: y\nbinary: 1\nb\nz: w\nOK\n",
                b"binary: 2\nab\nlist_OK\nbinary: 1\nc\nbinary: 3\ndef\nlist_OK\nOK\n", b"a: 1\nbinary: 1\nq\nbinary: 1\nr\nbinary: 1\ns\nACK [5@0] {} x\n"):
